@@ -41,8 +41,9 @@ def run(tier):
     missing = {'TakeInvalid', 'AddToMolecule', 'Overflow', 'NewMolecule', 'EjectCheck', 'SkipCheck', 'FinalFlush'} - covered
     if missing:
         raise vlib.MachineryError('vacuity: actions never taken in any design run: %s' % sorted(missing))
-    events, r = mc.conformance(c, 'c06', tier, mc.key_c06)
-    good = [e for i, e in enumerate(events, 1) if i not in set(x['line'] for x in r['rejects'])
+    events_all, r = mc.conformance(c, 'c06', tier, mc.key_c06)
+    events = [e for e in events_all if e['ev'] == 'lib']          # probe events are observations only
+    good = [e for i, e in enumerate(events_all, 1) if e['ev'] == 'lib' and i not in set(x['line'] for x in r['rejects'])
             and any(len(m['recs']) >= 2 for m in e['rounds'][0]) and len(e['rounds'][0]) >= 2][:4]
     if len(good) >= 4:
         def mut(evs):
